@@ -21,6 +21,12 @@ type Clause struct {
 	Behav string
 }
 
+type Guard struct {
+	Kind string // call, write, read
+	Name string
+	C    *Clause
+}
+
 type LoopSpec struct {
 	Invariants []*Clause
 	Variant    *Clause
@@ -51,6 +57,7 @@ type Contract struct {
 	Opts     map[string]string
 	Replay   string
 	BehavAssumes map[string][]*Clause
+	Guards   []*Guard
 	All      []*Clause
 }
 
@@ -118,7 +125,7 @@ var clauseKeywords = map[string]bool{
 	"requires": true, "ensures": true, "modifies": true, "pure": true, "mode": true, "strings": true,
 	"decreases": true, "panics": true, "emits": true, "loop": true, "callinv": true, "unfold": true,
 	"behavior": true, "assumes": true, "nooverflow": true, "use": true, "trusted": true, "replay": true,
-	"opt": true, "induct": true, "unfoldat": true, "auto": true,
+	"opt": true, "induct": true, "unfoldat": true, "auto": true, "guard": true,
 }
 
 var itemKeywords = map[string]bool{"func": true, "spec": true, "lemma": true, "axiom": true, "interface": true, "type": true, "ghost": true}
@@ -343,6 +350,18 @@ func (cs *ContractSet) parseItem(file, pkgPath, header string, line int, clauses
 					return err
 				}
 				c.Decr = cl
+			case "guard":
+				// guard call <Name>: e | guard write <global>: e | guard read <global>: e
+				fs := strings.Fields(body)
+				ci := strings.Index(body, ":")
+				if len(fs) < 3 || ci < 0 {
+					return errf("bad guard clause %q", body)
+				}
+				e, err := parseExpr(strings.TrimSpace(body[ci+1:]))
+				if err != nil {
+					return fmt.Errorf("%s:%d: %v", file, rc.line, err)
+				}
+				c.Guards = append(c.Guards, &Guard{Kind: fs[0], Name: strings.TrimSuffix(fs[1], ":"), C: &Clause{Kind: kw, Text: body, Expr: e, Line: rc.line, File: file}})
 			case "unfoldat":
 				for _, part := range splitTop(body, ',') {
 					e, err := parseExpr(part)
